@@ -17,19 +17,21 @@ import (
 type LV struct{ P Ptr }
 
 type evalCtx struct {
-	x        *Exec
-	st       *State
-	heap     *Heap
-	old      *Heap
-	loop     *Heap
-	ghost    map[string]*Term
-	oldGhost map[string]*Term
-	vars     map[string]Value
-	names    map[string]Value
-	pkg      *types.Package
-	facts    bool
-	where    string
-	oldAlloc *Term
+	x         *Exec
+	st        *State
+	heap      *Heap
+	old       *Heap
+	loop      *Heap
+	ghost     map[string]*Term
+	oldGhost  map[string]*Term
+	vars      map[string]Value
+	names     map[string]Value
+	pkg       *types.Package
+	facts     bool
+	where     string
+	oldAlloc  *Term
+	loopGhost map[string]*Term
+	iter      *Iter // map iterator of the enclosing range loop (for rangeidx)
 }
 
 type evalErr struct{ msg string }
@@ -180,6 +182,13 @@ func (c *evalCtx) eval(e ast.Expr) Value {
 		c.errf("deref of non-pointer")
 	case *ast.IndexExpr:
 		base := c.rv(c.eval(n.X))
+		if gm, ok := base.(GMap); ok && gm.Kind == "gmapk" {
+			k := c.rv(c.eval(n.Index))
+			return Sc{Select(gm.T, keyTerm(k))}
+		}
+		if mv, ok := base.(MapV); ok {
+			return c.x.mapRead(c.st, c.heap, mv, c.rv(c.eval(n.Index)))
+		}
 		idx := c.term(n.Index)
 		switch b := base.(type) {
 		case Sl:
@@ -194,9 +203,19 @@ func (c *evalCtx) eval(e ast.Expr) Value {
 			}
 			return LV{Ptr{R: b.R, I: Add(b.O, idx), Root: b.Elem, Elem: b.Elem}}
 		case Ar:
+			if strings.HasPrefix(elemSort(b.A.Sort), "(Array") {
+				return Ar{A: Select(b.A, idx), N: 12}
+			}
 			return Sc{Select(b.A, idx)}
 		case MapV:
 			return c.x.mapRead(c.st, c.heap, b, c.rv(c.eval(n.Index)))
+		case GMap:
+			switch b.Kind {
+			case "gmap":
+				return Sc{Select(b.T, idx)}
+			case "gmapa":
+				return Ar{A: Select(b.T, idx), N: 1 << 30}
+			}
 		}
 		c.errf("index on %T", base)
 	case *ast.SliceExpr:
@@ -443,11 +462,8 @@ func (c *evalCtx) valEq(a, b Value) *Term {
 		return And(Eq(av.R, bv.R), Eq(av.I, bv.I))
 	case Ar:
 		bv := b.(Ar)
-		var cs []*Term
-		for k := int64(0); k < av.N; k++ {
-			cs = append(cs, Eq(Select(av.A, Int(k)), Select(bv.A, Int(k))))
-		}
-		return And(cs...)
+		// byte-array values are kept canonical (see DESIGN: fixed arrays as SMT arrays), so Go == is SMT =
+		return Eq(av.A, bv.A)
 	case Sl:
 		bv := b.(Sl)
 		return And(Eq(av.R, bv.R), Eq(av.O, bv.O), Eq(av.L, bv.L), Eq(av.C, bv.C))
@@ -526,7 +542,7 @@ func (c *evalCtx) callExpr(n *ast.CallExpr) Value {
 		if c.loop == nil {
 			c.errf("loopold() outside a loop invariant")
 		}
-		return c.inHeap(c.loop, nil).rvDeep(arg(0))
+		return c.inHeap(c.loop, c.loopGhost).rvDeep(arg(0))
 	case "implies":
 		return Sc{Implies(c.term(arg(0)), c.term(arg(1)))}
 	case "iff":
@@ -534,7 +550,11 @@ func (c *evalCtx) callExpr(n *ast.CallExpr) Value {
 	case "ite":
 		cond := c.term(arg(0))
 		return Sc{Ite(cond, c.term(arg(1)), c.term(arg(2)))}
-	case "forall", "exists":
+	case "forall", "exists", "forallv":
+		allVariants := fname == "forallv" // forallv: conjoin the equivalent variants for every array offset (more triggers)
+		if allVariants {
+			fname = "forall"
+		}
 		id, ok := arg(0).(*ast.Ident)
 		if !ok {
 			c.errf("%s: first argument must be a variable name", fname)
@@ -552,19 +572,70 @@ func (c *evalCtx) callExpr(n *ast.CallExpr) Value {
 		rng := And(Le(lo, bv), Lt(bv, hi))
 		// Quantify over the absolute array index (p = X + k) instead of the relative one, so that
 		// array reads have the bare bound variable as index and E-matching sees every ground read.
-		if shift := indexShift(body, bv.Name); shift != nil && len(pats) == 0 {
-			pv := Sym(fresh(id.Name+".abs"), SInt)
-			k := Sub(pv, shift)
-			cc2 := c.with(map[string]Value{id.Name: Sc{k}})
-			cc2.facts = false
-			body = cc2.term(arg(3))
-			rng = And(Le(lo, k), Lt(k, hi))
-			bv = pv
+		// When the body reads several arrays at different offsets, the (equivalent) variants for each
+		// offset are conjoined, giving the solver one trigger per array.
+		shifts := indexShifts(body, bv.Name)
+		if !allVariants {
+			// default: the first offset read decides (byte-level frames are all written new-state-first)
+			var first []*Term
+			for _, sh := range shifts {
+				if !(sh.IsInt() && sh.Val.Sign() == 0) {
+					first = []*Term{sh}
+					break
+				}
+			}
+			shifts = first
+		}
+		if len(pats) == 0 && len(shifts) > 0 && !(len(shifts) == 1 && shifts[0].IsInt() && shifts[0].Val.Sign() == 0) {
+			var variants []*Term
+			for _, shift := range shifts {
+				if shift.IsInt() && shift.Val.Sign() == 0 {
+					if fname == "forall" {
+						variants = append(variants, Forall([]*Term{bv}, Implies(rng, body)))
+					} else {
+						variants = append(variants, Exists([]*Term{bv}, And(rng, body)))
+					}
+					continue
+				}
+				pv := Sym(fresh(id.Name+".abs"), SInt)
+				k := Sub(pv, shift)
+				cc2 := c.with(map[string]Value{id.Name: Sc{k}})
+				cc2.facts = false
+				b2 := cc2.term(arg(3))
+				r2 := And(Le(lo, k), Lt(k, hi))
+				if fname == "forall" {
+					variants = append(variants, Forall([]*Term{pv}, Implies(r2, b2)))
+				} else {
+					variants = append(variants, Exists([]*Term{pv}, And(r2, b2)))
+				}
+			}
+			if fname == "forall" {
+				return Sc{And(variants...)}
+			}
+			return Sc{variants[0]}
 		}
 		if fname == "forall" {
 			return Sc{Forall([]*Term{bv}, Implies(rng, body), pats...)}
 		}
 		return Sc{Exists([]*Term{bv}, And(rng, body))}
+	case "rangeidx":
+		// rangeidx(k): position of key k in the enumeration of the enclosing range-over-map loop
+		if c.iter == nil {
+			c.errf("rangeidx() outside a range-over-map loop")
+		}
+		return Sc{App("|"+c.iter.Idx+"|", SInt, keyTerm(c.rv(c.eval(arg(0)))))}
+	case "forallkey":
+		// forallkey(k, body): k ranges over all values of a 12-byte array type (transaction ids)
+		id := arg(0).(*ast.Ident)
+		bv := Sym(fresh(id.Name), SArr)
+		cc := c.with(map[string]Value{id.Name: Ar{A: bv, N: 12}})
+		cc.facts = false
+		body := cc.term(arg(1))
+		var pats []*Term
+		for _, pe := range n.Args[2:] {
+			pats = append(pats, scT(cc.rv(cc.eval(pe))))
+		}
+		return Sc{Forall([]*Term{bv}, body, pats...)}
 	case "forallint":
 		id := arg(0).(*ast.Ident)
 		bv := Sym(fresh(id.Name), SInt)
@@ -717,6 +788,10 @@ func (c *evalCtx) callExpr(n *ast.CallExpr) Value {
 	case "ghost":
 		id := arg(0).(*ast.Ident)
 		return Sc{c.ghostVar(id.Name)}
+	case "gmap", "gmapa", "gmapk":
+		// ghost maps: gmap(name)[k] : Int ; gmapa(name)[k] : byte array ; gmapk(name)[arraykey] : Int
+		id := arg(0).(*ast.Ident)
+		return GMap{Kind: fname, Name: id.Name, T: ghostGet(c.ghost, id.Name, ghostSort(fname))}
 	case "errtag":
 		// errtag(e): dynamic type tag of an interface value
 		return Sc{c.rv(c.eval(arg(0))).(If).Tag}
@@ -735,8 +810,9 @@ func (c *evalCtx) callExpr(n *ast.CallExpr) Value {
 		}
 		vars := map[string]Value{}
 		for i, p := range d.Params {
-			vars[p] = c.eval(n.Args[i])
-			// keep lvalues as lvalues (call by name) so that old()/heap switches inside the body work
+			// call by value: arguments are evaluated (and loaded) in the caller's state; old()/loopold()
+			// inside the body then only affect what the body itself reads through them
+			vars[p] = c.rv(c.eval(n.Args[i]))
 		}
 		cc := c.with(vars)
 		return cc.eval(d.Body)
@@ -752,10 +828,27 @@ func (c *evalCtx) callExpr(n *ast.CallExpr) Value {
 func (c *evalCtx) rvDeep(e ast.Expr) Value { return c.rv(c.eval(e)) }
 
 func (c *evalCtx) ghostVar(name string) *Term {
-	if t, ok := c.ghost[name]; ok {
+	return ghostGet(c.ghost, name, SInt)
+}
+
+// ghostGet: current value of a ghost variable (entry value: a rigid symbol).
+func ghostGet(g map[string]*Term, name, sort string) *Term {
+	if t, ok := g[name]; ok {
 		return t
 	}
-	return Int(0)
+	return Sym("ghost."+name+"@0", sort)
+}
+
+func ghostSort(kind string) string {
+	switch kind {
+	case "gmap":
+		return SArr
+	case "gmapa":
+		return arrSort(SInt, SArr)
+	case "gmapk": // keyed by a byte-array value (e.g. a transaction id)
+		return arrSort(SArr, SInt)
+	}
+	return SInt
 }
 
 // contentEq: forall i in [0,n): a[i] == b[i] (scalar elements), each evaluated in its own heap.
@@ -923,15 +1016,18 @@ func (c *evalCtx) resolvable(e ast.Expr) bool {
 		switch v := n.(type) {
 		case *ast.CallExpr:
 			if id, isID := v.Fun.(*ast.Ident); isID {
-				if (id.Name == "forall" || id.Name == "exists" || id.Name == "forallint") && len(v.Args) > 0 {
+				if (id.Name == "forall" || id.Name == "forallv" || id.Name == "exists" || id.Name == "forallint" || id.Name == "forallkey") && len(v.Args) > 0 {
 					if bid, isB := v.Args[0].(*ast.Ident); isB {
 						bound[bid.Name] = true
 					}
 				}
-				if id.Name == "fieldslice" || id.Name == "ghost" {
+				if id.Name == "fieldslice" {
 					if len(v.Args) > 0 {
 						ast.Inspect(v.Args[0], visit)
 					}
+					return false
+				}
+				if id.Name == "ghost" || id.Name == "gmap" || id.Name == "gmapa" || id.Name == "gmapk" {
 					return false
 				}
 				for _, a := range v.Args {
@@ -967,4 +1063,10 @@ func (c *evalCtx) resolvable(e ast.Expr) bool {
 	}
 	ast.Inspect(e, visit)
 	return ok
+}
+
+// GMap is a ghost map value in contract expressions.
+type GMap struct {
+	Kind, Name string
+	T          *Term
 }
